@@ -163,7 +163,7 @@ class C14(Machine):
             o, rec = reuse
         else:
             o = pb.obj(rec)
-        total = rng.choice([0, 1, 2, 3, 4, 5, 6, 9, 20, 40])
+        total = rng.choice([0, 1, 2, 3, 4, 5, 6, 9, 20, 40, 40, 20, 9, 5, 130, 253, 254, 257, 300, 520, 700 + rng.randrange(600)])
         M = rbytes(rng, total)
         k = rng.choice([1, 1, 2, 3, 4])
         cuts = sorted(rng.randint(0, total) if rng.random() < 0.7 else rng.randint(0, min(total, 5)) for _ in range(k))
